@@ -24,6 +24,7 @@ var funcMap = template.FuncMap{
 	"int_array":           intArray,
 	"int_array_columns":   intArrayColumns,
 	"str_literal":         strconv.Quote,
+	"one_line":            oneLine,
 	"stringify":           stringify,
 	"title":               strings.Title,
 	"lower":               strings.ToLower,
@@ -50,6 +51,15 @@ var funcMap = template.FuncMap{
 	"escape_reserved":     escapeReserved,
 	"unwrap_with_default": unwrapWithDefault,
 	"all_casts":           allCasts,
+}
+
+// oneLine escapes control characters and invalid UTF-8 so that the text fits into a line comment.
+func oneLine(s string) string {
+	if strings.IndexFunc(s, func(r rune) bool { return r < 0x20 || r == 0x7f || r == utf8.RuneError }) == -1 {
+		return s
+	}
+	q := strconv.Quote(s)
+	return q[1 : len(q)-1]
 }
 
 // CastInfo contains type information that is needed to generate default semantic actions.
